@@ -1,8 +1,10 @@
+#![allow(unused_imports)]
 //! vharness — correspondence / search harness for the Lean model of anoncreds-v2-rs.
 //!   vharness gen <PROPERTY> <tier> <seed> <outdir>    run the real code, write ops.txt / impl.txt / gen.json
 //!   vharness judge <outdir>                           compare model.txt with impl.txt → judge.json
 mod claims;
 mod common;
+mod vb20;
 
 use common::*;
 use serde_json::json;
@@ -17,6 +19,7 @@ fn gen(prop: &str, tier: &str, seed: u64, out: &str) {
             em.rule = "untrusted inputs per entry point, outcome class ok|err|panic under catch_unwind, compared with the model's Outcome".into();
             claims::gen_c20_claims(&mut em, &mut rng);
         }
+        "C14" => vb20::gen_c14(&mut em, &mut rng),
         _ => {
             eprintln!("unknown property {}", prop);
             std::process::exit(2);
@@ -34,17 +37,38 @@ fn fxhash(s: &str) -> u64 {
     h
 }
 
-/// rewrite `@shake(<hex>)` tokens of a model line by evaluating the real hash-to-scalar
+/// rewrite the `@shake(<hex>)` (real hash-to-scalar) and `@g1(<scalar>)` (scalar·G1 generator,
+/// compressed) tokens of a model line
 fn canon_model_line(l: &str) -> String {
     let mut out = String::new();
     let mut rest = l;
-    while let Some(i) = rest.find("@shake(") {
+    loop {
+        let i = match rest.find('@') {
+            Some(i) => i,
+            None => break,
+        };
         out.push_str(&rest[..i]);
-        let after = &rest[i + 7..];
-        let j = after.find(')').unwrap_or(after.len());
-        let data = if &after[..j] == "-" { vec![] } else { hex::decode(&after[..j]).unwrap_or_default() };
-        out.push_str(&sc_hex(&shake_to_scalar(&data)));
-        rest = if j < after.len() { &after[j + 1..] } else { "" };
+        let tail = &rest[i..];
+        let (name, arg, used) = match (tail.find('('), tail.find(')')) {
+            (Some(a), Some(b)) if a < b => (&tail[1..a], &tail[a + 1..b], b + 1),
+            _ => {
+                out.push_str(tail);
+                rest = "";
+                break;
+            }
+        };
+        match name {
+            "shake" => {
+                let data = if arg == "-" { vec![] } else { hex::decode(arg).unwrap_or_default() };
+                out.push_str(&sc_hex(&shake_to_scalar(&data)));
+            }
+            "g1" => match sc_from_hex(arg) {
+                Some(s) => out.push_str(&hex::encode((blsful::inner_types::G1Projective::GENERATOR * s).to_compressed())),
+                None => out.push_str("<bad-scalar>"),
+            },
+            _ => out.push_str(&tail[..used]),
+        }
+        rest = &tail[used..];
     }
     out.push_str(rest);
     out
